@@ -1,6 +1,926 @@
-//! Monitor for C18 (see /verif/DESIGN.md §5 C18).
-use vcommon::Args;
+//! Monitor for C18 — "Role membership behaves like a set of grants gated by enabled roles".
+//!
+//! Two systems under test run the same random operation machine against one reference model:
+//!  (a) `direct`: a zeroed `Store` value initialised by `Store::init`, mutated through
+//!      `Store::enable_role / disable_role / grant / revoke` and queried through `Store::has_role`,
+//!      `Store::has_admin_role` (inside the runtime context, so the last-restart-slot sysvar is the
+//!      harness-controlled one) and `RoleStore::has_role` (`store.role()`); every failing call is
+//!      followed by a byte comparison of the whole `Store` value;
+//!  (b) `ix`: the real instructions `enable_role / disable_role / grant_role / revoke_role /
+//!      check_role / has_role / check_admin / has_admin / update_last_restarted_slot` in hostsvm, with
+//!      callers drawn from {store authority, members, RESTART_ADMIN holders, strangers}.
+//!
+//! Reference model: `roles: name -> enabled?`, `grants: set of (address, role)`, capacities 32 / 64,
+//! recorded vs current last-restart slot.
+use crate::world::{self, exchange::load, six, user::in_runtime};
+use anchor_lang::prelude::Pubkey;
+use anchor_lang::system_program;
+use gmsol_store::{accounts as sa, instruction as si, states::Store};
+use gmsol_utils::role::RoleKey;
+use hostsvm::{key, Svm, TxError};
+use std::collections::{BTreeMap, BTreeSet, VecDeque};
+use vcommon::{json, monitor::guard, monitor::run_shards, Args, Monitor, Rng};
 
-pub fn run(_args: &Args) -> Option<i32> {
-    None
+const MAX_ROLES: usize = 32;
+const MAX_MEMBERS: usize = 64;
+const N_ADDRS: usize = 80;
+const N_ROLE_NAMES: usize = 40;
+
+// ------------------------------------------------------------------------------------------------
+// Reference model
+
+#[derive(Clone, Default)]
+struct Model {
+    /// Roles that exist (were enabled at least once) -> currently enabled.
+    roles: BTreeMap<String, bool>,
+    grants: BTreeSet<(usize, String)>,
+    authority: usize,
+    recorded_slot: u64,
+    current_slot: u64,
+}
+
+#[derive(Clone, Copy, PartialEq, Eq, Debug)]
+enum Exp {
+    Ok,
+    /// Must fail; `true`: the property text itself names this failure, `false`: documented on the
+    /// function / instruction (`# Errors`) or a capacity limit.
+    Err(&'static str, bool),
+    /// Not specified (disable of a role that never existed): either result, no effect.
+    Either,
+}
+
+impl Model {
+    fn n_grants(&self, a: usize) -> usize {
+        self.grants.range((a, String::new())..(a + 1, String::new())).count()
+    }
+    fn is_member(&self, a: usize) -> bool {
+        self.n_grants(a) > 0
+    }
+    fn members(&self) -> usize {
+        let mut s = BTreeSet::new();
+        for (a, _) in &self.grants {
+            s.insert(*a);
+        }
+        s.len()
+    }
+    fn holds(&self, a: usize, role: &str) -> bool {
+        self.roles.get(role) == Some(&true) && self.grants.contains(&(a, role.to_string()))
+    }
+    fn restarted(&self) -> bool {
+        self.recorded_slot != self.current_slot
+    }
+    /// What `has_role` / `check_role` must answer `true` for.
+    fn authorised(&self, a: usize, role: &str) -> bool {
+        if self.restarted() {
+            self.holds(a, RoleKey::RESTART_ADMIN)
+        } else {
+            self.holds(a, role)
+        }
+    }
+    fn is_admin(&self, a: usize) -> bool {
+        a == self.authority || (self.restarted() && self.holds(a, RoleKey::RESTART_ADMIN))
+    }
+    fn exp_enable(&self, role: &str) -> Exp {
+        match self.roles.get(role) {
+            Some(true) => Exp::Err("role already enabled", true),
+            Some(false) => Exp::Ok,
+            None if role.len() > 32 => Exp::Err("name longer than MAX_ROLE_NAME_LEN", false),
+            None if self.roles.len() >= MAX_ROLES => Exp::Err("role capacity (32) reached", false),
+            None => Exp::Ok,
+        }
+    }
+    fn exp_disable(&self, role: &str) -> Exp {
+        match self.roles.get(role) {
+            Some(true) => Exp::Ok,
+            Some(false) => Exp::Err("role already disabled", false),
+            None => Exp::Either,
+        }
+    }
+    fn exp_grant(&self, a: usize, role: &str) -> Exp {
+        if self.roles.get(role) != Some(&true) {
+            return Exp::Err("role does not exist or is disabled", false);
+        }
+        if self.grants.contains(&(a, role.to_string())) {
+            return Exp::Err("role already held", true);
+        }
+        if !self.is_member(a) && self.members() >= MAX_MEMBERS {
+            return Exp::Err("member capacity (64) reached", false);
+        }
+        Exp::Ok
+    }
+    fn exp_revoke(&self, a: usize, role: &str) -> Exp {
+        if !self.roles.contains_key(role) {
+            return Exp::Err("role does not exist", false);
+        }
+        if !self.grants.contains(&(a, role.to_string())) {
+            return Exp::Err("role not held (absent grant)", true);
+        }
+        Exp::Ok
+    }
+}
+
+// ------------------------------------------------------------------------------------------------
+// Systems under test
+
+#[derive(Clone, Debug, PartialEq, Eq)]
+enum Res {
+    Ok,
+    Err(String),
+    Panic(String),
+}
+
+/// A query result: `Some(b)` = `Ok(b)`, `None` = `Err(..)` (string kept for the witness).
+type Q = Result<bool, String>;
+
+trait Sut {
+    fn label(&self) -> &'static str;
+    /// Whether mutating operations check the caller (instruction level) or not (direct).
+    fn authenticates(&self) -> bool;
+    fn enable(&mut self, caller: usize, role: &str) -> Res;
+    fn disable(&mut self, caller: usize, role: &str) -> Res;
+    fn grant(&mut self, caller: usize, a: usize, role: &str) -> Res;
+    fn revoke(&mut self, caller: usize, a: usize, role: &str) -> Res;
+    /// Restart-aware role query, all variants the SUT offers: `(variant, result)`.
+    fn q_role(&mut self, a: usize, role: &str) -> Vec<(&'static str, Q)>;
+    /// Role query without the restart rule (direct only).
+    fn q_raw_role(&mut self, a: usize, role: &str) -> Option<Q>;
+    fn q_admin(&mut self, a: usize) -> Vec<(&'static str, Q)>;
+    fn set_slot(&mut self, slot: u64);
+    fn update_slot(&mut self, caller: usize) -> Option<Res>;
+    fn bytes(&self) -> Vec<u8>;
+    fn restore(&mut self, bytes: &[u8]);
+    fn store(&self) -> Option<Box<Store>>;
+}
+
+struct Direct {
+    svm: Svm,
+    store: Box<Store>,
+    addrs: Vec<Pubkey>,
+}
+
+fn res_of<T>(r: Result<anchor_lang::Result<T>, String>) -> Res {
+    match r {
+        Ok(Ok(_)) => Res::Ok,
+        Ok(Err(e)) => Res::Err(err_name(&e)),
+        Err(p) => Res::Panic(p),
+    }
+}
+
+fn err_name(e: &anchor_lang::error::Error) -> String {
+    match e {
+        anchor_lang::error::Error::AnchorError(a) => format!("{}({})", a.error_name, a.error_code_number),
+        anchor_lang::error::Error::ProgramError(p) => format!("{:?}", p.program_error),
+    }
+}
+
+impl Direct {
+    fn new(addrs: Vec<Pubkey>, authority: usize, slot: u64) -> Result<Self, String> {
+        let mut svm = Svm::new();
+        svm.last_restart_slot = slot;
+        let mut store: Box<Store> = Box::new(bytemuck::Zeroable::zeroed());
+        let auth = addrs[authority];
+        let r = in_runtime(&mut svm, || store.init(auth, "", 255, auth, auth).map_err(|e| err_name(&e)))?;
+        r?;
+        Ok(Self { svm, store, addrs })
+    }
+}
+
+impl Sut for Direct {
+    fn label(&self) -> &'static str {
+        "direct"
+    }
+    fn authenticates(&self) -> bool {
+        false
+    }
+    fn enable(&mut self, _c: usize, role: &str) -> Res {
+        let s = &mut self.store;
+        res_of(guard(|| s.enable_role(role)))
+    }
+    fn disable(&mut self, _c: usize, role: &str) -> Res {
+        let s = &mut self.store;
+        res_of(guard(|| s.disable_role(role)))
+    }
+    fn grant(&mut self, _c: usize, a: usize, role: &str) -> Res {
+        let (s, k) = (&mut self.store, self.addrs[a]);
+        res_of(guard(|| s.grant(&k, role)))
+    }
+    fn revoke(&mut self, _c: usize, a: usize, role: &str) -> Res {
+        let (s, k) = (&mut self.store, self.addrs[a]);
+        res_of(guard(|| s.revoke(&k, role)))
+    }
+    fn q_role(&mut self, a: usize, role: &str) -> Vec<(&'static str, Q)> {
+        let (s, k) = (&self.store, self.addrs[a]);
+        let r = in_runtime(&mut self.svm, || s.has_role(&k, role).map_err(|e| err_name(&e)));
+        vec![("Store::has_role", r.unwrap_or_else(|p| Err(format!("aborted: {p}"))))]
+    }
+    fn q_raw_role(&mut self, a: usize, role: &str) -> Option<Q> {
+        let (s, k) = (&self.store, self.addrs[a]);
+        Some(match guard(|| s.role().has_role(&k, role)) {
+            Ok(r) => r.map_err(|e| err_name(&e)),
+            Err(p) => Err(format!("panic: {p}")),
+        })
+    }
+    fn q_admin(&mut self, a: usize) -> Vec<(&'static str, Q)> {
+        let (s, k) = (&self.store, self.addrs[a]);
+        let r = in_runtime(&mut self.svm, || s.has_admin_role(&k).map_err(|e| err_name(&e)));
+        vec![("Store::has_admin_role", r.unwrap_or_else(|p| Err(format!("aborted: {p}"))))]
+    }
+    fn set_slot(&mut self, slot: u64) {
+        self.svm.last_restart_slot = slot;
+    }
+    fn update_slot(&mut self, _caller: usize) -> Option<Res> {
+        None // `update_last_restarted_slot` is crate-private; exercised at instruction level.
+    }
+    fn bytes(&self) -> Vec<u8> {
+        bytemuck::bytes_of(&*self.store).to_vec()
+    }
+    fn restore(&mut self, bytes: &[u8]) {
+        bytemuck::bytes_of_mut(&mut *self.store).copy_from_slice(bytes);
+    }
+    fn store(&self) -> Option<Box<Store>> {
+        Some(self.store.clone())
+    }
+}
+
+struct Ix {
+    svm: Svm,
+    store: Pubkey,
+    addrs: Vec<Pubkey>,
+}
+
+fn tx_res(r: world::TxResult) -> Res {
+    match r {
+        Ok(_) => Res::Ok,
+        Err((TxError::Panic(p), _)) => Res::Panic(p),
+        Err((e, _)) => Res::Err(tx_err_name(&e)),
+    }
+}
+
+fn tx_err_name(e: &TxError) -> String {
+    match e.custom_code() {
+        Some(c) => format!("Custom({c})"),
+        None => format!("{e:?}"),
+    }
+}
+
+fn tx_q(r: world::TxResult) -> Q {
+    match r {
+        Ok(m) => match m.return_data {
+            Some((pid, d)) if pid == world::STORE_PID && d.len() == 1 => Ok(d[0] != 0),
+            other => Err(format!("no boolean return data: {other:?}")),
+        },
+        Err((e, _)) => Err(tx_err_name(&e)),
+    }
+}
+
+impl Ix {
+    fn new(addrs: Vec<Pubkey>, authority: usize, slot: u64) -> Result<Self, String> {
+        let mut svm = world::new_svm();
+        svm.last_restart_slot = slot;
+        let admin = addrs[authority];
+        svm.airdrop(&admin, 1_000 * world::LAMPORTS);
+        let store = world::pda::find_store_address("", &world::STORE_PID).0;
+        svm.process(
+            &[six(
+                sa::Initialize { payer: admin, authority: None, receiver: None, holding: None, store, system_program: system_program::ID },
+                si::Initialize { key: String::new() },
+            )],
+            &[admin],
+        )
+        .map_err(|(e, _)| format!("initialize: {e:?}"))?;
+        Ok(Self { svm, store, addrs })
+    }
+}
+
+impl Sut for Ix {
+    fn label(&self) -> &'static str {
+        "ix"
+    }
+    fn authenticates(&self) -> bool {
+        true
+    }
+    fn enable(&mut self, c: usize, role: &str) -> Res {
+        let (a, store) = (self.addrs[c], self.store);
+        tx_res(self.svm.process(&[six(sa::EnableRole { authority: a, store }, si::EnableRole { role: role.to_string() })], &[a]))
+    }
+    fn disable(&mut self, c: usize, role: &str) -> Res {
+        let (a, store) = (self.addrs[c], self.store);
+        tx_res(self.svm.process(&[six(sa::DisableRole { authority: a, store }, si::DisableRole { role: role.to_string() })], &[a]))
+    }
+    fn grant(&mut self, c: usize, u: usize, role: &str) -> Res {
+        let (a, store, user) = (self.addrs[c], self.store, self.addrs[u]);
+        tx_res(self.svm.process(&[six(sa::GrantRole { authority: a, store }, si::GrantRole { user, role: role.to_string() })], &[a]))
+    }
+    fn revoke(&mut self, c: usize, u: usize, role: &str) -> Res {
+        let (a, store, user) = (self.addrs[c], self.store, self.addrs[u]);
+        tx_res(self.svm.process(&[six(sa::RevokeRole { authority: a, store }, si::RevokeRole { user, role: role.to_string() })], &[a]))
+    }
+    fn q_role(&mut self, u: usize, role: &str) -> Vec<(&'static str, Q)> {
+        let (a, store) = (self.addrs[u], self.store);
+        let has = tx_q(self.svm.process(&[six(sa::HasRole { store }, si::HasRole { authority: a, role: role.to_string() })], &[]));
+        let check = tx_q(self.svm.process(&[six(sa::CheckRole { authority: a, store }, si::CheckRole { role: role.to_string() })], &[a]));
+        vec![("has_role", has), ("check_role", check)]
+    }
+    fn q_raw_role(&mut self, _a: usize, _role: &str) -> Option<Q> {
+        None
+    }
+    fn q_admin(&mut self, u: usize) -> Vec<(&'static str, Q)> {
+        let (a, store) = (self.addrs[u], self.store);
+        let has = tx_q(self.svm.process(&[six(sa::HasRole { store }, si::HasAdmin { authority: a })], &[]));
+        let check = tx_q(self.svm.process(&[six(sa::CheckRole { authority: a, store }, si::CheckAdmin {})], &[a]));
+        vec![("has_admin", has), ("check_admin", check)]
+    }
+    fn set_slot(&mut self, slot: u64) {
+        self.svm.last_restart_slot = slot;
+    }
+    fn update_slot(&mut self, c: usize) -> Option<Res> {
+        let (a, store) = (self.addrs[c], self.store);
+        Some(tx_res(self.svm.process(&[six(sa::UpdateLastRestartedSlot { authority: a, store }, si::UpdateLastRestartedSlot {})], &[a])))
+    }
+    fn bytes(&self) -> Vec<u8> {
+        self.svm.get(&self.store).map(|a| a.data.clone()).unwrap_or_default()
+    }
+    fn restore(&mut self, _bytes: &[u8]) {}
+    fn store(&self) -> Option<Box<Store>> {
+        load::<Store>(&self.svm, &self.store).map(Box::new)
+    }
+}
+
+// ------------------------------------------------------------------------------------------------
+// Driver
+
+fn role_names(rng: &mut Rng) -> Vec<String> {
+    const A: &[u8] = b"ABCDEFGHIJKLMNOPQRSTUVWXYZ_abcdefghijklmnopqrstuvwxyz0123456789 -.";
+    const MB: &[&str] = &["é", "ß", "€", "中", "😀"];
+    let mut names: BTreeSet<String> = BTreeSet::new();
+    names.insert(RoleKey::RESTART_ADMIN.to_string());
+    for r in world::ALL_ROLES.iter().take(4) {
+        names.insert(r.to_string());
+    }
+    while names.len() < N_ROLE_NAMES {
+        let target = rng.range(1, 31) as usize;
+        let mut s = String::new();
+        while s.len() < target {
+            if rng.chance(1, 8) {
+                let c = *rng.pick(MB);
+                if s.len() + c.len() <= 31 {
+                    s.push_str(c);
+                    continue;
+                }
+            }
+            s.push(*rng.pick(A) as char);
+        }
+        names.insert(s);
+    }
+    let mut v: Vec<String> = names.into_iter().collect();
+    rng.shuffle(&mut v);
+    v
+}
+
+struct Ctx<'a> {
+    m: &'a mut Monitor,
+    model: Model,
+    names: Vec<String>,
+    history: VecDeque<String>,
+    shard: u64,
+    case: u64,
+    step: u64,
+    /// A revoke brought the member count from 64 to 63 and no new member was added since.
+    freed_at_capacity: bool,
+}
+
+impl Ctx<'_> {
+    fn witness(&self, sut: &dyn Sut, what: vcommon::serde_json::Value) -> vcommon::serde_json::Value {
+        json!({
+            "sut": sut.label(), "shard": self.shard, "case": self.case, "step": self.step,
+            "restarted": self.model.restarted(), "recorded_slot": self.model.recorded_slot, "current_slot": self.model.current_slot,
+            "model_roles": self.model.roles.len(), "model_members": self.model.members(),
+            "detail": what, "last_ops": self.history.iter().cloned().collect::<Vec<_>>(),
+        })
+    }
+    fn log(&mut self, s: String) {
+        if self.history.len() >= 30 {
+            self.history.pop_front();
+        }
+        self.history.push_back(s);
+    }
+}
+
+fn role_state(model: &Model, role: &str) -> &'static str {
+    match model.roles.get(role) {
+        None => "absent",
+        Some(true) => "enabled",
+        Some(false) => "disabled",
+    }
+}
+
+/// Apply one mutating operation to SUT and model, compare.
+#[allow(clippy::too_many_arguments)]
+fn mutate(cx: &mut Ctx, sut: &mut dyn Sut, op: &str, caller: usize, a: usize, role: &str) {
+    let model_exp = match op {
+        "enable" => cx.model.exp_enable(role),
+        "disable" => cx.model.exp_disable(role),
+        "grant" => cx.model.exp_grant(a, role),
+        _ => cx.model.exp_revoke(a, role),
+    };
+    let authorised = !sut.authenticates() || cx.model.is_admin(caller);
+    let exp = if authorised { model_exp } else { Exp::Err("caller is not an admin", false) };
+    let members_before = cx.model.members();
+    let was_member = cx.model.is_member(a);
+    let before = sut.bytes();
+    let res = match op {
+        "enable" => sut.enable(caller, role),
+        "disable" => sut.disable(caller, role),
+        "grant" => sut.grant(caller, a, role),
+        _ => sut.revoke(caller, a, role),
+    };
+    let desc = format!(
+        "{op}(caller={caller}{}, addr={a}, role={role:?}[{}], granted={}) -> {res:?}",
+        if caller == cx.model.authority { "=authority" } else { "" },
+        role_state(&cx.model, role),
+        cx.model.grants.contains(&(a, role.to_string()))
+    );
+    cx.log(desc.clone());
+    cx.m.eval();
+    cx.m.count(&format!("{}_{op}_{}", sut.label(), match &res { Res::Ok => "ok", Res::Err(_) => "err", Res::Panic(_) => "panic" }));
+    let class = format!(
+        "{}:{op}:{}:{}:{}:{}:{}:{}:{}",
+        sut.label(),
+        match &res { Res::Ok => "ok".to_string(), Res::Err(e) => e.clone(), Res::Panic(_) => "panic".into() },
+        role_state(&cx.model, role),
+        cx.model.grants.contains(&(a, role.to_string())),
+        cx.model.roles.len() >= MAX_ROLES,
+        members_before >= MAX_MEMBERS,
+        cx.model.restarted(),
+        authorised,
+    );
+    cx.m.nontrivial(class.as_bytes());
+    if let Res::Panic(p) = &res {
+        cx.m.count("panics");
+        let _ = p;
+        sut.restore(&before);
+    }
+    let ok = res == Res::Ok;
+    match (exp, ok) {
+        (Exp::Ok, true) | (Exp::Either, true) => {}
+        (Exp::Err(..), false) | (Exp::Either, false) => {}
+        (Exp::Ok, false) => {
+            cx.m.violation(
+                &format!("C18:{}:{op}:rejected_although_model_accepts", sut.label()),
+                cx.witness(sut, json!({"op": desc, "model": "must succeed"})),
+            );
+        }
+        (Exp::Err(why, by_property), true) => {
+            let class = if !authorised {
+                "unauthorised_caller_accepted"
+            } else if by_property {
+                "accepted_although_property_requires_failure"
+            } else {
+                "accepted_although_documented_to_fail"
+            };
+            cx.m.violation(
+                &format!("C18:{}:{op}:{class}", sut.label()),
+                cx.witness(sut, json!({"op": desc, "model": format!("must fail: {why}")})),
+            );
+        }
+    }
+    if let Exp::Err(why, _) = exp {
+        if !ok {
+            cx.m.count(&format!("expected_failure[{why}]"));
+        }
+    }
+    if exp == Exp::Either {
+        cx.m.count(&format!("unspecified_disable_of_never_enabled_role_{}", if ok { "ok_noop" } else { "err" }));
+    }
+    // Failure ⇒ no side effects (byte comparison). (`Either` + Ok must also be a no-op.)
+    let after = sut.bytes();
+    if !ok || exp == Exp::Either {
+        cx.m.count("no_side_effect_checks");
+        if after != before && !matches!(res, Res::Panic(_)) {
+            cx.m.violation(
+                &format!("C18:{}:{op}:failure_changed_state", sut.label()),
+                cx.witness(sut, json!({"op": desc, "bytes_differ": true})),
+            );
+        }
+    }
+    // Success ⇒ model transition.
+    if ok && authorised {
+        match op {
+            "enable" => {
+                cx.model.roles.insert(role.to_string(), true);
+            }
+            "disable" => {
+                if let Some(e) = cx.model.roles.get_mut(role) {
+                    *e = false;
+                }
+            }
+            "grant" => {
+                cx.model.grants.insert((a, role.to_string()));
+                if !was_member {
+                    cx.m.max("max_members_reached", cx.model.members() as u64);
+                    if cx.freed_at_capacity && members_before == MAX_MEMBERS - 1 {
+                        cx.m.count("new_member_added_into_slot_freed_at_capacity");
+                    }
+                    cx.freed_at_capacity = false;
+                }
+            }
+            _ => {
+                cx.model.grants.remove(&(a, role.to_string()));
+                if role_state(&cx.model, role) == "disabled" {
+                    cx.m.count("revoke_on_disabled_role_ok");
+                }
+                if !cx.model.is_member(a) {
+                    cx.m.count("membership_removed_by_last_revoke");
+                    if members_before == MAX_MEMBERS {
+                        cx.freed_at_capacity = true;
+                    }
+                }
+            }
+        }
+        cx.m.max("max_roles_reached", cx.model.roles.len() as u64);
+    } else if ok {
+        // An unauthorised caller was accepted (already reported): resynchronise so that one defect
+        // does not cascade — apply the effect to the model as the SUT did.
+        match op {
+            "enable" => {
+                cx.model.roles.insert(role.to_string(), true);
+            }
+            "disable" => {
+                if let Some(e) = cx.model.roles.get_mut(role) {
+                    *e = false;
+                }
+            }
+            "grant" => {
+                cx.model.grants.insert((a, role.to_string()));
+            }
+            _ => {
+                cx.model.grants.remove(&(a, role.to_string()));
+            }
+        }
+    }
+    structure_check(cx, sut, &[a]);
+}
+
+/// Compare the SUT's membership structure with the model for the given addresses (+ totals).
+fn structure_check(cx: &mut Ctx, sut: &dyn Sut, addrs: &[usize]) {
+    let Some(store) = sut.store() else {
+        cx.m.inconclusive("store account unreadable");
+        return;
+    };
+    let rs = store.role();
+    cx.m.eval();
+    if rs.num_roles() != cx.model.roles.len() || rs.num_members() != cx.model.members() {
+        cx.m.violation(
+            &format!("C18:{}:structure:counts_differ_from_model", sut.label()),
+            cx.witness(sut, json!({"num_roles": rs.num_roles(), "num_members": rs.num_members()})),
+        );
+    }
+    let keys: Vec<Pubkey> = addrs.iter().map(|a| addr_key(*a)).collect();
+    for (a, k) in addrs.iter().zip(keys.iter()) {
+        let bits = rs.role_value(k).map(|v| v.count_ones() as usize);
+        let want = cx.model.n_grants(*a);
+        let ok = match bits {
+            None => want == 0,
+            Some(n) => n == want && want > 0,
+        };
+        if !ok {
+            cx.m.violation(
+                &format!("C18:{}:structure:membership_differs_from_model", sut.label()),
+                cx.witness(sut, json!({"addr": a, "stored_grant_bits": bits, "model_grants": want,
+                    "note": "an address must be a member exactly while it has at least one grant"})),
+            );
+        }
+    }
+}
+
+fn addr_key(i: usize) -> Pubkey {
+    key(&format!("c18-addr-{i}"))
+}
+
+fn query_role(cx: &mut Ctx, sut: &mut dyn Sut, a: usize, role: &str) {
+    let want = cx.model.authorised(a, role);
+    let restarted = cx.model.restarted();
+    for (variant, q) in sut.q_role(a, role) {
+        cx.m.eval();
+        let got = q == Ok(true);
+        cx.m.count(&format!("{}_{variant}_{}", sut.label(), match &q { Ok(true) => "true", Ok(false) => "false", Err(_) => "err" }));
+        cx.m.nontrivial(
+            format!("{}:{variant}:{:?}:{}:{}:{}", sut.label(), q.as_ref().map_err(|e| e.clone()), role_state(&cx.model, role), restarted, cx.model.is_member(a)).as_bytes(),
+        );
+        if restarted {
+            cx.m.count(if want { "restart_queries_authorised" } else { "restart_queries_denied" });
+        }
+        if got != want {
+            let class = match (restarted, want) {
+                (false, true) => "held_role_not_reported",
+                (false, false) => "role_reported_although_not_held",
+                (true, true) => "restart_admin_not_authorised_after_restart",
+                (true, false) => "non_restart_admin_authorised_after_restart",
+            };
+            let w = cx.witness(sut, json!({"query": variant, "addr": a, "role": role, "role_state": role_state(&cx.model, role),
+                "granted": cx.model.grants.contains(&(a, role.to_string())), "result": format!("{q:?}"), "model_says_true": want}));
+            cx.m.violation(&format!("C18:{}:{variant}:{class}", sut.label()), w);
+        }
+    }
+    if let Some(q) = sut.q_raw_role(a, role) {
+        cx.m.eval();
+        let want = cx.model.holds(a, role);
+        cx.m.count(&format!("direct_RoleStore::has_role_{}", match &q { Ok(true) => "true", Ok(false) => "false", Err(_) => "err" }));
+        if (q == Ok(true)) != want {
+            let w = cx.witness(sut, json!({"query": "RoleStore::has_role", "addr": a, "role": role, "role_state": role_state(&cx.model, role),
+                "granted": cx.model.grants.contains(&(a, role.to_string())), "result": format!("{q:?}"), "model_says_true": want}));
+            cx.m.violation(
+                &format!("C18:direct:RoleStore::has_role:{}", if want { "held_role_not_reported" } else { "role_reported_although_not_held" }),
+                w,
+            );
+        }
+    }
+}
+
+fn query_admin(cx: &mut Ctx, sut: &mut dyn Sut, a: usize) {
+    let want = cx.model.is_admin(a);
+    let restarted = cx.model.restarted();
+    for (variant, q) in sut.q_admin(a) {
+        cx.m.eval();
+        cx.m.count(&format!("{}_{variant}_{}", sut.label(), match &q { Ok(true) => "true", Ok(false) => "false", Err(_) => "err" }));
+        cx.m.nontrivial(format!("{}:{variant}:{:?}:{}:{}", sut.label(), q.as_ref().map_err(|e| e.clone()), restarted, a == cx.model.authority).as_bytes());
+        if a == cx.model.authority && restarted {
+            cx.m.count("authority_admin_checks_after_restart");
+        }
+        if (q == Ok(true)) != want {
+            let class = if a == cx.model.authority {
+                "store_authority_not_admin"
+            } else if want {
+                "restart_admin_not_admin_after_restart"
+            } else {
+                "non_admin_reported_as_admin"
+            };
+            let w = cx.witness(sut, json!({"query": variant, "addr": a, "is_authority": a == cx.model.authority, "result": format!("{q:?}"), "model_says_true": want}));
+            cx.m.violation(&format!("C18:{}:{variant}:{class}", sut.label()), w);
+        }
+    }
+}
+
+fn run_case(m: &mut Monitor, rng: &mut Rng, use_ix: bool, shard: u64, case: u64, steps: u64) {
+    let addrs: Vec<Pubkey> = (0..N_ADDRS).map(addr_key).collect();
+    let authority = rng.below(N_ADDRS as u64) as usize;
+    let slot0 = if rng.bool() { 0 } else { rng.range(1, 1_000_000) };
+    let names = role_names(rng);
+    let mut sut: Box<dyn Sut> = if use_ix {
+        match Ix::new(addrs.clone(), authority, slot0) {
+            Ok(s) => Box::new(s),
+            Err(e) => {
+                m.inconclusive(&format!("ix bootstrap failed: {e}"));
+                return;
+            }
+        }
+    } else {
+        match Direct::new(addrs.clone(), authority, slot0) {
+            Ok(s) => Box::new(s),
+            Err(e) => {
+                m.inconclusive(&format!("direct bootstrap failed: {e}"));
+                return;
+            }
+        }
+    };
+    let model = Model { authority, recorded_slot: slot0, current_slot: slot0, ..Default::default() };
+    let mut cx = Ctx { m, model, names, history: VecDeque::new(), shard, case, step: 0, freed_at_capacity: false };
+    cx.m.count(&format!("cases_{}", sut.label()));
+    // Case flavour: how eagerly the capacities are approached.
+    let fill = rng.below(3); // 0: balanced, 1: grant-heavy (members), 2: enable-heavy (roles)
+    // Make RESTART_ADMIN available in most cases.
+    let restart_flavour = rng.chance(3, 4);
+    for step in 0..steps {
+        cx.step = step;
+        let n_names = cx.names.len();
+        let pick_role = |rng: &mut Rng, cx: &Ctx| -> String {
+            if !cx.model.roles.is_empty() && rng.chance(7, 10) {
+                let i = rng.below(cx.model.roles.len() as u64) as usize;
+                cx.model.roles.keys().nth(i).cloned().unwrap()
+            } else {
+                cx.names[rng.below(n_names as u64) as usize].clone()
+            }
+        };
+        let pick_caller = |rng: &mut Rng, cx: &Ctx| -> usize {
+            match rng.below(10) {
+                0..=5 => cx.model.authority,
+                6 | 7 => {
+                    // a RESTART_ADMIN holder if any, else any member
+                    let ra: Vec<usize> = cx.model.grants.iter().filter(|(_, r)| r == RoleKey::RESTART_ADMIN).map(|(a, _)| *a).collect();
+                    if !ra.is_empty() {
+                        *rng.pick(&ra)
+                    } else if let Some((a, _)) = cx.model.grants.iter().next() {
+                        *a
+                    } else {
+                        rng.below(N_ADDRS as u64) as usize
+                    }
+                }
+                8 => {
+                    let n = cx.model.grants.len();
+                    if n > 0 { cx.model.grants.iter().nth(rng.below(n as u64) as usize).unwrap().0 } else { rng.below(N_ADDRS as u64) as usize }
+                }
+                _ => rng.below(N_ADDRS as u64) as usize,
+            }
+        };
+        let caller = if sut.authenticates() { pick_caller(rng, &cx) } else { cx.model.authority };
+        let weights: [u32; 8] = match fill {
+            0 => [10, 6, 28, 20, 22, 8, 4, 2],
+            1 => [8, 3, 45, 14, 18, 6, 4, 2],
+            _ => [22, 6, 26, 14, 18, 8, 4, 2],
+        };
+        match rng.weighted(&weights) {
+            0 => {
+                let role = if restart_flavour && !cx.model.roles.contains_key(RoleKey::RESTART_ADMIN) && rng.chance(1, 2) {
+                    RoleKey::RESTART_ADMIN.to_string()
+                } else if rng.chance(2, 3) {
+                    cx.names[rng.below(n_names as u64) as usize].clone()
+                } else {
+                    pick_role(rng, &cx)
+                };
+                mutate(&mut cx, sut.as_mut(), "enable", caller, 0, &role);
+            }
+            1 => {
+                let role = pick_role(rng, &cx);
+                mutate(&mut cx, sut.as_mut(), "disable", caller, 0, &role);
+            }
+            2 => {
+                let role = if restart_flavour && cx.model.roles.get(RoleKey::RESTART_ADMIN) == Some(&true) && rng.chance(1, 12) {
+                    RoleKey::RESTART_ADMIN.to_string()
+                } else {
+                    pick_role(rng, &cx)
+                };
+                // Prefer existing members (to build multi-role members) or new addresses by flavour.
+                let a = if !cx.model.grants.is_empty() && rng.chance(if fill == 1 { 3 } else { 5 }, 10) {
+                    let n = cx.model.grants.len();
+                    cx.model.grants.iter().nth(rng.below(n as u64) as usize).unwrap().0
+                } else {
+                    rng.below(N_ADDRS as u64) as usize
+                };
+                mutate(&mut cx, sut.as_mut(), "grant", caller, a, &role);
+            }
+            3 => {
+                let (a, role) = if !cx.model.grants.is_empty() && rng.chance(3, 4) {
+                    // Prefer members with a single grant sometimes (frees member slots).
+                    let n = cx.model.grants.len();
+                    let (a, r) = cx.model.grants.iter().nth(rng.below(n as u64) as usize).cloned().unwrap();
+                    (a, r)
+                } else {
+                    (rng.below(N_ADDRS as u64) as usize, pick_role(rng, &cx))
+                };
+                mutate(&mut cx, sut.as_mut(), "revoke", caller, a, &role);
+            }
+            4 => {
+                let (a, role) = if !cx.model.grants.is_empty() && rng.chance(1, 2) {
+                    let n = cx.model.grants.len();
+                    cx.model.grants.iter().nth(rng.below(n as u64) as usize).cloned().unwrap()
+                } else if !cx.model.grants.is_empty() && rng.chance(1, 2) {
+                    let n = cx.model.grants.len();
+                    (cx.model.grants.iter().nth(rng.below(n as u64) as usize).unwrap().0, pick_role(rng, &cx))
+                } else {
+                    (rng.below(N_ADDRS as u64) as usize, pick_role(rng, &cx))
+                };
+                cx.log(format!("query_role(addr={a}, role={role:?})"));
+                query_role(&mut cx, sut.as_mut(), a, &role);
+            }
+            5 => {
+                let a = match rng.below(3) {
+                    0 => cx.model.authority,
+                    1 => pick_caller(rng, &cx),
+                    _ => rng.below(N_ADDRS as u64) as usize,
+                };
+                cx.log(format!("query_admin(addr={a})"));
+                query_admin(&mut cx, sut.as_mut(), a);
+            }
+            6 => {
+                // Cluster restart (or back to the recorded value).
+                let slot = if rng.chance(1, 3) { cx.model.recorded_slot } else { rng.range(0, 1_000_000) };
+                sut.set_slot(slot);
+                cx.model.current_slot = slot;
+                cx.log(format!("last_restart_slot := {slot} (recorded {})", cx.model.recorded_slot));
+                cx.m.count(if cx.model.restarted() { "restart_toggled_on" } else { "restart_toggled_off" });
+                // Immediately probe the rule on interesting addresses.
+                let auth = cx.model.authority;
+                query_admin(&mut cx, sut.as_mut(), auth);
+                let ra: Vec<usize> = cx.model.grants.iter().filter(|(_, r)| r == RoleKey::RESTART_ADMIN).map(|(a, _)| *a).collect();
+                for a in ra.into_iter().take(2) {
+                    let role = pick_role(rng, &cx);
+                    query_role(&mut cx, sut.as_mut(), a, &role);
+                    query_admin(&mut cx, sut.as_mut(), a);
+                }
+                if let Some((a, r)) = cx.model.grants.iter().next().cloned() {
+                    query_role(&mut cx, sut.as_mut(), a, &r);
+                }
+            }
+            _ => {
+                let exp_ok = cx.model.is_admin(caller) && cx.model.restarted();
+                let before = sut.bytes();
+                if let Some(res) = sut.update_slot(caller) {
+                    cx.m.eval();
+                    let desc = format!("update_last_restarted_slot(caller={caller}) -> {res:?}");
+                    cx.log(desc.clone());
+                    cx.m.count(&format!("ix_update_slot_{}", if res == Res::Ok { "ok" } else { "err" }));
+                    cx.m.nontrivial(format!("ix:update_slot:{res:?}:{}:{}", cx.model.restarted(), cx.model.is_admin(caller)).as_bytes());
+                    if (res == Res::Ok) != exp_ok {
+                        let class = if !cx.model.is_admin(caller) { "unauthorised_caller_accepted" } else { "result_differs_from_model" };
+                        let w = cx.witness(sut.as_ref(), json!({"op": desc, "model_expects_ok": exp_ok}));
+                        cx.m.violation(&format!("C18:ix:update_last_restarted_slot:{class}"), w);
+                    }
+                    if res == Res::Ok {
+                        cx.model.recorded_slot = cx.model.current_slot;
+                    } else if sut.bytes() != before {
+                        let w = cx.witness(sut.as_ref(), json!({"op": desc}));
+                        cx.m.violation("C18:ix:update_last_restarted_slot:failure_changed_state", w);
+                    }
+                }
+            }
+        }
+        // Periodic sweep: every address' membership + a sample of role queries.
+        if step % 64 == 63 || step + 1 == steps {
+            let all: Vec<usize> = (0..N_ADDRS).collect();
+            structure_check(&mut cx, sut.as_ref(), &all);
+            cx.m.count("full_membership_sweeps");
+            let pairs: Vec<(usize, String)> = if sut.authenticates() {
+                (0..24).map(|_| (rng.below(N_ADDRS as u64) as usize, pick_role(rng, &cx))).collect()
+            } else {
+                // direct: every (address, existing role) pair through RoleStore::has_role.
+                let roles: Vec<String> = cx.model.roles.keys().cloned().collect();
+                let mut v = vec![];
+                for a in 0..N_ADDRS {
+                    for r in &roles {
+                        v.push((a, r.clone()));
+                    }
+                }
+                v
+            };
+            for (a, r) in pairs {
+                if sut.authenticates() {
+                    query_role(&mut cx, sut.as_mut(), a, &r);
+                } else if let Some(q) = sut.q_raw_role(a, &r) {
+                    cx.m.eval();
+                    let want = cx.model.holds(a, &r);
+                    if (q == Ok(true)) != want {
+                        let w = cx.witness(sut.as_ref(), json!({"query": "RoleStore::has_role (sweep)", "addr": a, "role": r, "result": format!("{q:?}"), "model_says_true": want}));
+                        cx.m.violation(
+                            &format!("C18:direct:RoleStore::has_role:{}", if want { "held_role_not_reported" } else { "role_reported_although_not_held" }),
+                            w,
+                        );
+                    }
+                }
+            }
+        }
+    }
+    if cx.m.wants_sample() {
+        let s = json!({"sut": sut.label(), "steps": steps, "final_roles": cx.model.roles.len(), "final_members": cx.model.members(),
+            "final_grants": cx.model.grants.len(), "restarted_at_end": cx.model.restarted(), "last_ops": cx.history.iter().rev().take(5).cloned().collect::<Vec<_>>()});
+        cx.m.sample(s);
+    }
+}
+
+pub fn run(args: &Args) -> Option<i32> {
+    let mut mon = Monitor::new(
+        args,
+        "cases: random sequences of enable/disable/grant/revoke/has_role/check_role/has_admin/check_admin/restart-slot \
+         changes over 80 addresses and 40 role names (1..31 bytes, ASCII and multi-byte) on (a) a Store value \
+         (Store::init + Store/RoleStore methods, queries inside the runtime context) and (b) the real instructions in \
+         hostsvm with varying callers; every result is compared with a set model (roles->enabled, grants, capacities \
+         32/64, recorded vs current restart slot); non-trivial: every operation; distinct = distinct (sut, operation, \
+         outcome incl. error, role state, grant state, at-capacity flags, restarted, caller authorised)",
+    );
+    mon.assume("`disable_role` of a role that was never enabled is not specified by the property: either result is accepted provided nothing changes");
+    mon.assume("for queries the model fixes only when the answer is `true`; `Ok(false)` and `Err` both count as `does not hold`");
+    mon.assume("instruction-level `no side effects on failure` is given by transaction atomicity of the runtime; the byte comparison is meaningful for the direct SUT");
+    let quiet = hostsvm::QuietStdout::new();
+    let shards = args.scale(192, 1536);
+    let seed = args.seed;
+    let thorough = args.is_thorough();
+    run_shards(&mut mon, args.threads, shards, |shard, m| {
+        let mut rng = Rng::derive(seed, shard, 18);
+        let use_ix = shard % 2 == 1;
+        let cases = if use_ix { if thorough { 6 } else { 3 } } else if thorough { 24 } else { 10 };
+        for case in 0..cases {
+            let steps = if use_ix { rng.range(300, 900) } else { rng.range(300, 1500) };
+            run_case(m, &mut rng, use_ix, shard, case, steps);
+        }
+    });
+    drop(quiet);
+    for c in [
+        "direct_enable_ok", "direct_enable_err", "direct_disable_ok", "direct_disable_err", "direct_grant_ok", "direct_grant_err",
+        "direct_revoke_ok", "direct_revoke_err", "ix_enable_ok", "ix_enable_err", "ix_disable_ok", "ix_grant_ok", "ix_grant_err",
+        "ix_revoke_ok", "ix_revoke_err", "ix_has_role_true", "ix_check_role_true", "ix_has_role_err", "ix_has_admin_true",
+        "ix_check_admin_true", "direct_Store::has_role_true", "direct_Store::has_admin_role_true",
+    ] {
+        mon.require(c, 50);
+    }
+    for c in [
+        "expected_failure[role already enabled]", "expected_failure[role already held]", "expected_failure[role not held (absent grant)]",
+        "expected_failure[role capacity (32) reached]", "expected_failure[member capacity (64) reached]",
+        "expected_failure[caller is not an admin]", "membership_removed_by_last_revoke", "new_member_added_into_slot_freed_at_capacity",
+        "restart_queries_authorised", "restart_queries_denied", "authority_admin_checks_after_restart", "revoke_on_disabled_role_ok",
+        "no_side_effect_checks", "ix_update_slot_ok",
+    ] {
+        mon.require(c, 10);
+    }
+    mon.require("max_roles_reached", MAX_ROLES as u64);
+    mon.require("max_members_reached", MAX_MEMBERS as u64);
+    Some(mon.finish())
 }
